@@ -1239,6 +1239,28 @@ func (w *feWalker) resolveCallee(st *feState, v ssa.Value, depth int) (*ssa.Func
 	if rv := w.evalVal(st, v).V; rv != nil && rv != v {
 		return w.resolveCallee(st, rv, depth+1)
 	}
+	// a local function variable assigned once with a function literal (possibly captured by the
+	// closure being walked)
+	if lu, ok := v.(*ssa.UnOp); ok && lu.Op == token.MUL {
+		var cell ssa.Value = lu.X
+		if fv, ok := cell.(*ssa.FreeVar); ok {
+			if b := freeVarBinding(fv); b != nil {
+				cell = b
+			}
+		}
+		if al, ok := cell.(*ssa.Alloc); ok {
+			if sts := storesTo(al); len(sts) == 1 {
+				switch f := sts[0].Val.(type) {
+				case *ssa.MakeClosure:
+					if fn, ok := f.Fn.(*ssa.Function); ok {
+						return fn, f
+					}
+				case *ssa.Function:
+					return f, nil
+				}
+			}
+		}
+	}
 	return nil, nil
 }
 
